@@ -539,6 +539,8 @@ func rulesC06(e *Engine, r *Report) {
 	e.shareRule(r, "C05", "R05.16", "R06.16", "a file already logged and delivered is not delivered again after a crash: the leftovers of a duplicate that was being discarded (partial and complete companion) are not promoted, validated and moved by the recovery")
 	// ---------------------------------------------------------------- R06.17
 	e.shareRule(r, "C18", "R18.6", "R06.17", "the record of a delivery is where a restart will look for it: the receive log re-opens its day file when that file has vanished from its path, so that a record written before the move - the receiver's only durable knowledge of a delivery - does not go to an unlinked inode")
+	// ---------------------------------------------------------------- R06.18
+	e.shareRule(r, "C05", "R05.11", "R06.18", "recovery knows what was delivered the day before: the cache refill at start-up reaches back the logged-entry age (24 h) behind the oldest companion, not the shorter age of loaded batches")
 }
 
 // checkRecoverReadiness: Recover keeps readiness cleared across every step and
